@@ -835,9 +835,12 @@ CallBuiltin(nm, args0, site, cx) ==
                        ELSE Ok(MergeObjs(arr1, 1, Obj(<<>>)), st)
     [] nm = "each" -> IF n # 2 THEN BadArgs(st) ELSE IF ~IsObj(a[1]) THEN BadArgs(st)
                       ELSE IF ~IsFn(A(2)) THEN BadArgs(st)
+                      \* the callback takes (value, key, object): what a callback of no or of more than three parameters means is not said
+                      ELSE IF FnArity(a[2]) < 1 \/ FnArity(a[2]) > 3 THEN Top("callback of $each with no or more than three parameters", st)
                       ELSE EachPairs(a[2], a[1].m, 1, <<>>, IF Len(a[1].m) >= 2 THEN Taint(st) ELSE st)
     [] nm = "sift" -> IF n # 2 THEN BadArgs(st) ELSE IF ~IsObj(a[1]) THEN BadArgs(st)
                       ELSE IF ~IsFn(A(2)) THEN BadArgs(st)
+                      ELSE IF FnArity(a[2]) < 1 \/ FnArity(a[2]) > 3 THEN Top("callback of $sift with no or more than three parameters", st)
                       ELSE SiftPairs(a[2], a[1].m, 1, <<>>, IF Len(a[1].m) >= 2 THEN Taint(st) ELSE st)
     [] nm = "type" -> IF n # 1 THEN BadArgs(st) ELSE Ok(Str(TypeNameCps(a[1])), st)
     [] nm = "error" -> IF n = 1 /\ IsStr(a[1]) THEN Er("Any", st) ELSE Er("Any", st)
